@@ -15,12 +15,12 @@ pub fn run(ctx: &Ctx) -> i32 {
         marker_sweep(ctx, &mon);
         return finish(ctx, &mon, Spec::new("exploration", "marker arithmetic sweep (sanitizer sub-run)"));
     }
-    let n = ctx.tier.pick(320, 4000);
+    let n = ctx.tier.pick(320, 2000);
     par_cases(ctx, &mon, "hist", n, |cc, rng, l| {
         let case = HistCase::random(rng, ctx.tier.pick(12, 30), ctx.tier.pick(8, 16), 6, false);
         with_cfg!(case.cfg, TC, { block_on(run_case::<TC>(cc, &case, l, false)) })
     });
-    let hot = ctx.tier.pick(32, 128);
+    let hot = ctx.tier.pick(32, 96);
     par_cases(ctx, &mon, "hot", hot, |cc, rng, l| {
         let case = HistCase::random(rng, ctx.tier.pick(36, 140), 4, 3, true);
         with_cfg!(case.cfg, TC, { block_on(run_case::<TC>(cc, &case, l, true)) })
@@ -33,7 +33,7 @@ pub fn run(ctx: &Ctx) -> i32 {
             "exploration",
             "generated histories incl. hot-label histories; after every epoch, for every published label and params in {Complete, MostRecent(1,2,3,total-1,total,total+1,total+5)}: key_history must succeed, verify with the same parameter against the returned epoch hash, and the verified list must equal the model's newest-first list (value, version, epoch). distinct = (start_version, end_version, epoch) triples the marker computation sees; non-trivial = total versions >= 2. Plus get_marker_versions panic sweep over boundary u64 triples",
         )
-        .need("histories_verified", ctx.tier.pick(3000, 60000))
+        .need("histories_verified", ctx.tier.pick(3000, 30000))
         .need("max_versions_in_history", ctx.tier.pick(30, 120))
         .need("marker_triples_swept", 10000),
     )
